@@ -56,7 +56,10 @@ def r1(ctx):
     sel = [n for n in walk_own(tb.node) if isinstance(n, ast.IfExp)]
     ctx.check(len(sel) == 1 and norm(sel[0]) == "PacketIdentifier.TO_CLIENT if self.isServer else PacketIdentifier.TO_SERVER", "C09.R1", tb, "direction identifier by isServer", witness=[norm(s) for s in sel])
     cr = ctx.fn(CR)
-    sets = {norm(n.targets[0]): norm(n.value) for n in walk_own(cr.node) if isinstance(n, ast.Assign) and isinstance(n.targets[0], ast.Attribute)}
+    from .common import sym_text
+    ccfg = cfg_of(cr)
+    sets = {norm(n.targets[0]): sym_text(cr, n.value, ccfg.node_of(n), allow_calls=("len",)) if ccfg.node_of(n) is not None else norm(n.value)
+            for n in walk_own(cr.node) if isinstance(n, ast.Assign) and isinstance(n.targets[0], ast.Attribute)}
     ctx.check(sets.get("hdr.length") == "len(payload)" and sets.get("hdr.count") == "len(%s)" % cr.params[1] and sets.get("pkt.msg") == "payload"
               and sets.get("pkt.hdr") == cr.params[0], "C09.R1", cr, "create: length = len(payload), count = len(msgs), msg = payload",
               "length and count describe the payload exactly", witness=sets)
@@ -270,8 +273,12 @@ def r2(ctx):
                   witness={"pack": p.fmt, "unpack": u.fmt}, line=u.lineno)
     a, b = fmt_size(p1.fmt), fmt_size(pn.fmt)
     # single: pack(A, msgs[0].seq) + msgs[0].payload  <->  unpack(A, pkt.msg[:a]) ; pkt.msg[a:]
+    from .common import sym_text
+    crcfg = cfg_of(cr)
     e = p1.call._parent
-    ok = isinstance(e, ast.BinOp) and isinstance(e.op, ast.Add) and e.left is p1.call and norm(e.right) == "%s[0].payload" % cr.params[1] and [norm(x) for x in p1.args] == ["%s[0].seq" % cr.params[1]]
+    at1 = crcfg.node_of(p1.call)
+    ok = isinstance(e, ast.BinOp) and isinstance(e.op, ast.Add) and e.left is p1.call and sym_text(cr, e.right, at1) == "%s[0].payload" % cr.params[1] \
+        and [sym_text(cr, x, at1) for x in p1.args] == ["%s[0].seq" % cr.params[1]]
     ctx.check(ok, "C09.R2", cr, "single: payload = pack(seq) + message bytes", witness=norm(e))
     sb = slice_bounds(u1.args[0])
     ok = sb is not None and sb[1] is None and fold_int(ctx, fb, sb[2]) == a
@@ -288,13 +295,26 @@ def r2(ctx):
     # multi: pack(B, len(msg.payload), msg.seq, msg.type.value) then payload  <-> length, seq, typ = unpack(B, payload[:b]); msg = payload[b:b+length]; payload = payload[b+length:]
     pa = [norm(x) for x in pn.args]
     loopvar = None
+    comp = None
     for p in _parents(pn.call, cr.node):
         if isinstance(p, ast.For):
             loopvar = norm(p.target)
+        if isinstance(p, ast.ListComp) and comp is None:
+            comp = p
+    if loopvar is None and comp is not None and comp.generators and norm(comp.generators[0].iter) == cr.params[1] and isinstance(comp.generators[0].target, ast.Name):
+        loopvar = comp.generators[0].target.id
     ok = loopvar is not None and pa == ["len(%s.payload)" % loopvar, "%s.seq" % loopvar, "%s.type.value" % loopvar]
     ctx.check(ok, "C09.R2", cr, "multi: header = pack(len(payload), seq, type.value)", witness=pa)
+    if loopvar and comp is not None:
+        # [part for msg in msgs for part in (pack(...), msg.payload)]  joined: header then bytes per message, in queue order
+        g = comp.generators
+        ok = len(g) == 2 and not g[0].ifs and not g[1].ifs and isinstance(g[1].iter, (ast.Tuple, ast.List)) and len(g[1].iter.elts) == 2 \
+            and g[1].iter.elts[0] is pn.call and norm(g[1].iter.elts[1]) == "%s.payload" % loopvar and isinstance(g[1].target, ast.Name) and norm(comp.elt) == g[1].target.id
+        ctx.check(ok, "C09.R2", cr, "multi: for each message append header then bytes, in queue order", witness=norm(comp)[:120])
+        j = [n for n in walk_own(cr.node) if isinstance(n, ast.Call) and norm(n.func) in ("b''.join", 'b"".join')]
+        ctx.check(len(j) == 1, "C09.R2", cr, "multi: payload = b''.join(parts)")
     # appended in order: header then payload
-    if loopvar:
+    elif loopvar:
         loop = [p for p in _parents(pn.call, cr.node) if isinstance(p, ast.For)][0]
         apps = [s.value for s in loop.body if isinstance(s, ast.Expr) and isinstance(s.value, ast.Call) and norm(s.value.func).endswith(".append")]
         ok = len(apps) == 2 and apps[0].args[0] is pn.call and norm(apps[1].args[0]) == "%s.payload" % loopvar and norm(loop.iter) == cr.params[1]
@@ -360,7 +380,7 @@ def r2(ctx):
                 ctx.check(ok, "C09.R2", fb, g.test, "a decode guard refuses only remainders shorter than the %d bytes the writer always emits there" % need,
                           witness={"refused_up_to": top if top is not None else "unbounded", "writer_minimum": need}, line=g.lineno)
     # which framing for which count - both sides
-    crt = sorted(norm(n.test) for n in walk_own(cr.node) if isinstance(n, ast.If))
+    crt = sorted(sym_text(cr, n.test, crcfg.node_of(n.test), allow_calls=("len",)) if crcfg.node_of(n.test) is not None else norm(n.test) for n in walk_own(cr.node) if isinstance(n, ast.If))
     fbt = sorted(norm(n.test) for n in walk_own(fb.node) if isinstance(n, ast.If) and isinstance(n.test, ast.Compare) and norm(n.test.left).endswith(".count")
                  and not any(isinstance(x, ast.Raise) for x in n.body))
     ctx.check(crt == sorted(["len(%s) == 0" % cr.params[1], "len(%s) == 1" % cr.params[1]]) and
